@@ -1,10 +1,12 @@
 import IncanModel.Driver.C04
+import IncanModel.Driver.C19
 
 open Incan.Driver
 
 def dispatch (line : String) : String :=
   match line.trimAscii.toString.splitOn " " with
   | "c04" :: rest => handleC04 rest
+  | "c19" :: rest => handleC19 rest
   | _ => "bad-op"
 
 partial def loop (h : IO.FS.Stream) (out : IO.FS.Stream) : IO Unit := do
